@@ -20,6 +20,7 @@ pub fn engine_by_key(key: &str) -> Option<Box<dyn DynEngine>> {
         "twin" => Box::new(crate::engines::twin::Twin),
         "debug:hang" => Box::new(crate::engines::debug::Debug { kind: "hang" }),
         "debug:crash" => Box::new(crate::engines::debug::Debug { kind: "crash" }),
+        "debug:history" => Box::new(crate::engines::debug::Debug { kind: "history" }),
         "roundtrip" => Box::new(crate::engines::serde_eng::RoundTrip),
         "untrusted" => Box::new(crate::engines::serde_eng::Untrusted),
         "conc" => Box::new(Conc { only_invariant: None }),
@@ -35,6 +36,8 @@ fn replay_timeout_s() -> u64 {
 
 pub struct PartOut {
     pub engine: String,
+    /// runs the batch was asked for
+    pub budgeted: u64,
     pub runs: u64,
     pub stats: Stats,
     pub wall: f64,
@@ -111,11 +114,29 @@ pub fn run_part(prop: &str, key: &str, seed: u64, runs: u64, tier: Tier, cap_s: 
                 violation = Some((path, v));
             }
             other => {
-                // not reproducible: the machine was too busy for the stall limit. No verdict, no
-                // error; the indices that worker had left are simply not covered by this run.
-                eprintln!("[{tag}] note: stall of run {idx} did not reproduce in a fresh process ({other:?}); treated as machine load");
+                // not reproducible alone: does it depend on what the same process ran before?
+                // Re-run that worker's whole index sequence up to this run in a fresh process.
                 let _ = std::fs::remove_file(&path);
-                spurious_stall = true;
+                let seq = Sequence { tag: tag.clone(), tier: tier.as_str().to_string(), offset: idx % out.workers, stride: out.workers };
+                let spath = write_sequence_replay(prop, key, seed, idx, &v, &sc, seq);
+                match confirm_in_fresh_process(&spath) {
+                    Some(124) => violation = Some((spath, v)),
+                    Some(c) if c != 0 && c != 1 && c != 2 && c != 3 && c != 101 => {
+                        let v = Violation::new("crash", format!("the sequence of runs up to {idx} kills the process (exit status {c})"));
+                        violation = Some((spath, v));
+                    }
+                    Some(1) => {
+                        let v = Violation::new("violation-after-stall", format!("see `./check {prop} --replay {spath}`"));
+                        violation = Some((spath, v));
+                    }
+                    again => {
+                        // the machine was too busy for the stall limit. No verdict, no error; the
+                        // indices that worker had left are simply not covered by this run.
+                        eprintln!("[{tag}] note: stall of run {idx} did not reproduce in a fresh process ({other:?}, sequence: {again:?}); treated as machine load");
+                        let _ = std::fs::remove_file(&spath);
+                        spurious_stall = true;
+                    }
+                }
             }
         }
     }
@@ -124,26 +145,51 @@ pub fn run_part(prop: &str, key: &str, seed: u64, runs: u64, tier: Tier, cap_s: 
     } else if !hang_first || spurious_stall {
       if let Some((idx, v, sc)) = out.violation {
         eprintln!("[{tag}] run {idx} violated: {} — {}", v.class, v.detail);
+        let (v0, sc0) = (v.clone(), sc.clone());
         let budget = Duration::from_secs(if tier == Tier::Quick { 40 } else { 120 });
         let (msc, mv, steps, before, after) = e.minimise_dyn(sc, v, budget);
         eprintln!("[{tag}] minimised in {steps} steps: size {before} -> {after}");
         let path = write_replay(prop, key, seed, idx, &mv, &msc);
         match confirm_in_fresh_process(&path) {
-            Some(1) => {}
+            Some(1) => violation = Some((path, mv)),
             other => {
-                eprintln!("HARNESS-ERROR: minimised replay {path} did not reproduce in a fresh process ({other:?})");
-                std::process::exit(2);
+                // the failure needs what the process executed before (state the library keeps
+                // across calls): fall back to the unminimised scenario, then to the worker's
+                // whole sequence of runs
+                eprintln!("[{tag}] minimised replay did not reproduce alone ({other:?}); trying the original scenario and the run sequence");
+                let _ = std::fs::remove_file(&path);
+                let p2 = write_replay(prop, key, seed, idx, &v0, &sc0);
+                if confirm_in_fresh_process(&p2) == Some(1) {
+                    violation = Some((p2, v0));
+                } else {
+                    let _ = std::fs::remove_file(&p2);
+                    let seq = Sequence { tag: tag.clone(), tier: tier.as_str().to_string(), offset: idx % out.workers, stride: out.workers };
+                    let p3 = write_sequence_replay(prop, key, seed, idx, &v0, &sc0, seq);
+                    match confirm_in_fresh_process(&p3) {
+                        Some(1) => violation = Some((p3, v0)),
+                        other => {
+                            eprintln!("HARNESS-ERROR: the violation of run {idx} reproduces neither alone nor as a sequence in a fresh process ({other:?})");
+                            std::process::exit(2);
+                        }
+                    }
+                }
             }
         }
-        violation = Some((path, mv));
       }
     }
     let mut stats = out.stats;
     if spurious_stall {
         stats.inc("worker_stalls_not_reproducible_machine_load");
     }
+    if violation.is_none() && out.runs * 10 < runs * 9 {
+        eprintln!(
+            "NOTE: [{tag}] only {} of the {runs} budgeted runs were executed (time cap or machine load): no verdict is affected, coverage is smaller than usual",
+            out.runs
+        );
+    }
     PartOut {
         engine: key.to_string(),
+        budgeted: runs,
         runs: out.runs,
         stats,
         wall: out.wall.as_secs_f64(),
@@ -178,6 +224,7 @@ pub fn finish(prop: &str, tier: Tier, seed: u64, spec: CheckSpec, parts: Vec<Par
             p.engine.clone(),
             json!({
                 "runs": p.runs,
+                "budgeted_runs": p.budgeted,
                 "wall_s": p.wall,
                 "runs_per_hour": per_hour,
                 "distinct_measure": p.distinct_key,
@@ -425,6 +472,23 @@ pub fn replay(path: &str, quiet: bool) -> i32 {
         eprintln!("HARNESS-ERROR: unknown engine {}", rf.engine);
         return 2;
     };
+    if let Some(seq) = &rf.sequence {
+        return match run_sequence(e.as_ref(), seq, rf.seed, rf.run) {
+            Some((i, v)) => {
+                if !quiet {
+                    println!("VIOLATION property={} replay={path}", rf.property);
+                    println!("  class={} detail=run {i} of the sequence: {}", v.class, v.detail);
+                }
+                1
+            }
+            None => {
+                if !quiet {
+                    println!("replay of {path}: the sequence up to run {} ends without a violation (recorded: {})", rf.run, rf.violation.class);
+                }
+                0
+            }
+        };
+    }
     match e.replay_dyn(&rf.scenario) {
         Err(m) => {
             eprintln!("HARNESS-ERROR: {m}");
